@@ -86,6 +86,7 @@ fn fixed_cases() -> Vec<Case> {
   let r6 = json!({"id": "r6", "language": "TypeScript", "severity": "warning", "message": "m", "rule": {"pattern": "foo($A)"}, "fix": "bar($A)"});
   let r7 = json!({"id": "r7", "language": "JavaScript", "severity": "warning", "message": "m", "rule": {"pattern": "debugger;"}, "fix": ""});
   let r8 = json!({"id": "r8", "language": "JavaScript", "severity": "warning", "message": "m", "rule": {"pattern": "var $A = $B;"}, "fix": "let $A = $B;"});
+  let r10 = json!({"id": "r10", "language": "JavaScript", "severity": "warning", "message": "m", "rule": {"pattern": "keep($A)"}, "fix": "keep($A)"});
   let r9 = json!({"id": "r9", "language": "JavaScript", "severity": "warning", "message": "m", "rule": {"pattern": "foo($A);"}, "fix": "qux($A);"});
   vec![
     // three and four documents in one file, each with an accepted fix
@@ -101,6 +102,10 @@ fn fixed_cases() -> Vec<Case> {
     // fixes that touch: the second edit starts at the byte where the first ends (minified text, two rules on neighbouring statements)
     Case { id: "scan-touching".into(), files: vec![("m.js".into(), "var a = 1;debugger;var b = 2;foo(1);\nfoo(2);foo(3);foo(\"é\");debugger;\n".into()), ("m.css".into(), "a{color: red;color: red}\n".into())],
            rules: vec![r1.clone(), r4.clone(), r7.clone(), r8.clone(), r9.clone()], stmt_mode: false },
+    // a fix that reproduces the text it replaces is an announced edit like any other: it takes part in the overlap filter
+    // (the fixable match inside it is dropped) and in the count
+    Case { id: "scan-noop-fix".into(), files: vec![("k.js".into(), "keep(foo(1));\nfoo(2);\nkeep(3);\n".into()), ("l.js".into(), "keep(4);\n".into())],
+           rules: vec![r1.clone(), r10.clone()], stmt_mode: false },
     Case { id: "scan-no-match".into(), files: vec![("n.js".into(), "keep();\n".into())], rules: vec![r1], stmt_mode: false },
   ]
 }
